@@ -177,7 +177,7 @@ func TestC05(t *testing.T) {
 	evid.Main(t, "C05", func(rec *evid.Rec) {
 		rec.Rule("positions: suite/bench/synthetic/motif roots (raw and normalised en-passant field) and positions along playouts, each x ALL 32768 move encodings: IsPseudoLegal(m) iff GenNoisy+GenNotNoisy emit m. GUI gate: generated move strings (well-formed of every class, near misses, malformed) through `position fen F moves s` + `fen`: position unchanged or successor of a generated move; well-formed strings play exactly the move they name iff it is generated. Evaluations count encodings; non-trivial = position whose sweep met encodings with an own piece on the from square (all do; distinct by position), plus played GUI moves")
 		rec.Assume("the move generator is the reference here (C01 checks the generator against the rules)")
-		rec.Rapid(t, "sweep", evid.Pick(16000, 250000), func(t *rapid.T) {
+		rec.Rapid(t, "sweep", evid.Pick(16000, 1000000), func(t *rapid.T) {
 			root, label := gen.Root(t)
 			p := gen.Playout(t, root, 24, nil)
 			if gen.Chance(t, 1, 2, "norm") {
@@ -206,7 +206,7 @@ func TestC05(t *testing.T) {
 				t.Fatalf("%s", d)
 			}
 		})
-		rec.Rapid(t, "gui", evid.Pick(10000, 100000), func(t *rapid.T) {
+		rec.Rapid(t, "gui", evid.Pick(10000, 500000), func(t *rapid.T) {
 			root, _ := gen.Root(t)
 			p := gen.Playout(t, root, 16, nil)
 			b, err := board.FromFEN(p.FEN())
